@@ -103,6 +103,7 @@ class History:
         self.groups = 0
         self.strays = [set() for _ in range(nproj)]
         self.planted = [dict() for _ in range(nproj)]  # id-named non-job directories (C04 destinations)
+        self.idfiles = [set() for _ in range(nproj)]  # regular FILES named exactly like a job id
         self.mms = []
         self.cl = set()
         self.nontrivial = False
@@ -161,6 +162,8 @@ class History:
         p = op.get("p", 0) % len(self.projects)
         sp = op.get("sp", {})
         if not isinstance(sp, dict):
+            return
+        if oracle.job_id(sp) in self.idfiles[p]:
             return
         job = self.projects[p].open_job(json.loads(json.dumps(sp)))
         self.new_handle(job, p, sp, kind="sp")
@@ -282,6 +285,24 @@ class History:
         self.strays[p].add(name)
         self.cl.add("stray_planted")
 
+    def op_plant_idfile(self, op):
+        """A regular file named exactly like the id of a state point of the universe: not a job, and a
+        re-key / move onto that id must fail and leave everything as it was."""
+        p = op.get("p", 0) % len(self.projects)
+        sp = op.get("sp")
+        if not isinstance(sp, dict):
+            return
+        jid = oracle.job_id(sp)
+        path = self.jobdir(p, jid)
+        if jid in self.model[p] or os.path.lexists(path):
+            return
+        if any(h["p"] == p and oracle.job_id(h["sp"]) == jid for h in self.live()):
+            return  # keep handles and id-named files apart: init()/doc access there is not specified
+        fsutil.write_file(path, b"not a job")
+        self.idfiles[p].add(jid)
+        self.strays[p].add(jid)
+        self.cl.add("stray_id_named_file")
+
     def op_plant_dest(self, op):
         """Create an id-named directory that is not an initialised job (empty, or holding only a document)."""
         p = op.get("p", 0) % len(self.projects)
@@ -304,6 +325,8 @@ class History:
         h = self.pick_handle(op)
         if h is None or h.get("broken"):
             return None
+        if oracle.job_id(h["sp"]) in self.idfiles[h["p"]]:
+            return None  # the id is occupied by a regular file: what init()/doc access do there is not specified
         if h["stale"] and not allow_stale:
             return None
         return h
@@ -325,6 +348,7 @@ class History:
         h["removed_here"] = False
 
     def _doc(self, h):
+        h["doc_touched"] = True
         return h["job"].doc
 
     def op_doc_set(self, op):
@@ -459,8 +483,28 @@ class History:
         mj["doc"] = {}
 
     def op_remove(self, op):
-        h = self.usable(op)
+        h = self.usable(op, allow_stale=True)
         if h is None:
+            return
+        if h["stale"]:
+            # remove() of a job that is already gone "will do nothing" -- and leaves the handle usable again
+            # (only for handles that never held a document object: that one is not refreshed)
+            gone = oracle.job_id(h["sp"]) not in self.model[h["p"]]
+            if not (h.get("stale_by_remove") and gone and not h.get("doc_touched") and not h.get("lockbroken") and not h.get("broken")):
+                return
+            snap0 = fsutil.snapshot(self.roots[h["p"]])
+            try:
+                h["job"].remove()
+            except Exception as e:
+                self.mm("remove_raises", f"remove() of an already removed job raised {type(e).__name__}: {e}")
+                return
+            if not fsutil.same(snap0, fsutil.snapshot(self.roots[h["p"]])):
+                self.mm("remove_noop_changes_disk", "remove() of an already removed job changed the disk")
+            h["stale"] = False
+            h["stale_by_remove"] = False
+            self.groups += 1
+            h["group"] = self.groups
+            self.cl.add("stale_handle_resynced_by_remove")
             return
         jid = oracle.job_id(h["sp"])
         try:
@@ -471,6 +515,9 @@ class History:
         if jid in self.model[h["p"]]:
             del self.model[h["p"]][jid]
             self.mark_stale(h["p"], jid, h["group"])
+            for g in self.live():
+                if g is not h and g["p"] == h["p"] and oracle.job_id(g["sp"]) == jid:
+                    g["stale_by_remove"] = True
             self.structural("remove")
             h["removed_here"] = True
             # copies in the same group keep cached per-handle state (document object): treat as stale too
@@ -641,6 +688,24 @@ class History:
                 new_id = oracle.job_id(new_sp)
                 noop = new_id == old_id
                 collide = (not noop) and exists and new_id in m
+        if exists and not noop and new_id in self.idfiles[p]:
+            # renaming a directory onto a regular file fails (ENOTDIR): any OSError / DestinationExistsError
+            # is fine, but the job must be exactly where and what it was
+            self.cl.add("rekey_onto_id_named_file")
+            if outcome == "ok":
+                self.mm("rekey_onto_file", f"{op['op']} {old_sp!r} -> {new_sp!r}: destination id is a regular file, yet the call returned", detail)
+            if not fsutil.same(before, after):
+                self.mm("rekey_onto_file_disk", f"failed re-key onto an id-named file changed the disk: {fsutil.fmt_diff(fsutil.diff(before, after))}", detail)
+            for g in self.live():
+                if g["group"] == h["group"]:
+                    g["stale"] = True
+                    g["broken"] = True
+            return
+        if not exists and new_id in self.idfiles[p]:
+            for g in self.live():
+                if g["group"] == h["group"]:
+                    g["stale"] = g["broken"] = True
+            return
         planted_kind = self.planted[p].get(new_id) if (exists and not noop) else None
         if planted_kind == "doc_only":
             collide = True  # os.replace onto a non-empty directory must fail: nothing may be lost
@@ -746,6 +811,8 @@ class History:
         if q == p:
             q = (p + 1) % len(self.projects)
         jid = oracle.job_id(h["sp"])
+        if jid in self.idfiles[q]:
+            return
         exists = jid in self.model[p]
         collide = jid in self.model[q] or self.planted[q].get(jid) == "doc_only"
         b0 = fsutil.snapshot(os.path.join(self.roots[p], "workspace"))
@@ -799,6 +866,8 @@ class History:
         p = h["p"]
         q = op.get("p", 0) % len(self.projects)
         jid = oracle.job_id(h["sp"])
+        if jid in self.idfiles[q]:
+            return
         exists = jid in self.model[p]
         collide = jid in self.model[q] or jid in self.planted[q]
         b0 = fsutil.snapshot(os.path.join(self.roots[p], "workspace"))
@@ -928,9 +997,12 @@ class History:
                         sp = job.statepoint()
                         if oracle.canon(sp) != oracle.canon(h["sp"]) or oracle.canon(dict(job.cached_statepoint)) != oracle.canon(h["sp"]):
                             self.mm("handle_sp", f"live handle[{h['kind']}] statepoint {sp!r} / cached {dict(job.cached_statepoint)!r}, model {h['sp']!r}")
-                        doc = job.document()
-                        if doc != mj["doc"]:
-                            self.mm("handle_doc", f"live handle[{h['kind']}] document {doc!r}, model {mj['doc']!r}")
+                        # the document is only observed through handles that already hold a document object
+                        # (observing it would create one, which changes what remove()/init() do later)
+                        if h.get("doc_touched"):
+                            doc = job.document()
+                            if doc != mj["doc"]:
+                                self.mm("handle_doc", f"live handle[{h['kind']}] document {doc!r}, model {mj['doc']!r}")
                 except Exception as e:
                     self.mm("handle_read", f"live handle[{h['kind']}] for {h['sp']!r} raised {type(e).__name__}: {e}")
 
